@@ -427,6 +427,24 @@ def check_iso(case, rec):
         "vario_estimate without return_counts differs from the call with counts",
         dict(tags, kind="return_counts"),
     )
+    # a trend function that hands a coordinate back as it is, plus a position-dependent mean: the pairs are still those of the given
+    # points (counts unchanged) and the values those of the field detrended by hand
+    if (n + len(edges)) % 3 == 0:
+        p_np = np.array(pos, dtype=float).reshape(len(pos), -1)
+        f_np = np.array(fields, dtype=float).reshape(len(fields), -1)
+        tr_ = lambda *xs: xs[0]  # noqa: E731
+        mn_ = lambda *xs: 0.25 + 0.5 * np.asarray(xs[-1])  # noqa: E731
+        adj = f_np - p_np[0] - (0.25 + 0.5 * p_np[-1])
+        with common.quiet():
+            res5 = lib(gs.vario_estimate, p_np.copy(), f_np.copy(), edges, estimator=_spell(est, case), return_counts=True, trend=tr_, mean=mn_, _tags=tags)
+            res6 = lib(gs.vario_estimate, p_np.copy(), adj, edges, estimator=_spell(est, case), return_counts=True, _tags=tags)
+        rec.label("coordinate_trend_and_mean")
+        require(np.array_equal(np.asarray(res5[2]), np.asarray(res[2])),
+                f"vario_estimate(trend=coordinate, mean=function): pair counts {np.asarray(res5[2]).tolist()} differ from those without detrending {np.asarray(res[2]).tolist()}",
+                dict(tags, kind="mismatch", api="vario_estimate", option="trend+mean"))
+        require(bool(np.allclose(np.asarray(res5[1], dtype=float), np.asarray(res6[1], dtype=float), rtol=1e-9, atol=1e-12 * (1.0 + float(np.nanmax(np.abs(adj)))) ** 2, equal_nan=True)),
+                "vario_estimate(trend=coordinate, mean=function) differs from the estimate of the field detrended by hand",
+                dict(tags, kind="mismatch", api="vario_estimate", option="trend+mean"))
     how = case.get("missing_as", "nan")
     if how != "nan" and _has_nan(case["fields"]):
         enc, kw = _encode_missing(fields, how)
